@@ -294,6 +294,63 @@ def translate_maps(w, meth, out):
             out.append(f"/-- UNTRANSLATABLE {doc} — {str(e).replace('-/', '- /')} -/\ndef {fn.lean} {ps} : List (Nat × Bool) := default\n")
 
 
+class TrVal(TrGen):
+    """`_get_host_value`, `_is_sensitive_host`: `self.sensitive_hosts` is the parameter `sensitive_hosts` (address → value,
+    insertion ordered), `self.base_host_value` the parameter `base_host_value`; values are the model's scaled integers, on
+    which `float(…)` is the identity"""
+    def expr(self, e, env):
+        if isinstance(e, ast.Call) and isinstance(e.func, ast.Name) and e.func.id == "float" and len(e.args) == 1 and not e.keywords:
+            o, t = self.expr(e.args[0], env)
+            if t == "Int":
+                return o, "Int"
+            self.err(e, f"float of {t}")
+        if isinstance(e, ast.Attribute) and ast.unparse(e) == "self.base_host_value" and "base_host_value" in env:
+            return "base_host_value", "Int"
+        if isinstance(e, ast.Call) and isinstance(e.func, ast.Attribute) and e.func.attr == "get" and len(e.args) == 2 \
+                and ast.unparse(e.func.value) == "self.sensitive_hosts" and "sensitive_hosts" in env:
+            k, kt = self.expr(e.args[0], env)
+            d, dt = self.expr(e.args[1], env)
+            if kt == "Addr" and dt == "Int":
+                return f"((sensitive_hosts.lookup {k}).getD {d})", "Int"
+            self.err(e, f"dict.get with key {kt}, default {dt}")
+        if isinstance(e, ast.Compare) and len(e.ops) == 1 and isinstance(e.ops[0], ast.In) \
+                and ast.unparse(e.comparators[0]) == "self.sensitive_hosts" and "sensitive_hosts" in env:
+            k, kt = self.expr(e.left, env)
+            if kt == "Addr":
+                return f"((sensitive_hosts.lookup {k}).isSome)", "Bool"
+        return super().expr(e, env)
+
+
+def translate_values(w, meth, out):
+    LEAN_TYPE.update({"SensD": "List (Addr × Int)"})
+    for name, params, ctx, ret in (
+            ("_get_host_value", [("address", "Addr")], [("sensitive_hosts", "SensD"), ("base_host_value", "Int")], "Int"),
+            ("_is_sensitive_host", [("addr", "Addr")], [("sensitive_hosts", "SensD")], "Bool")):
+        fn = Fn("ScenarioGenerator", name, f"ScenarioGenerator.{name}", params, ret, self_ty="Gen")
+        fn.kind, fn.prop, fn.classmethod = "function", False, False
+        doc = f"`nasim/scenarios/generator.py`: `ScenarioGenerator.{name}` (the attributes it reads from `self` are parameters)"
+        ps = " ".join(f"({p} : {LEAN_TYPE[t]})" for p, t in ctx + params)
+        try:
+            node = meth.get(name)
+            if node is None:
+                raise Untranslatable(f"{name} not found")
+            got = [a.arg for a in node.args.args if a.arg != "self"]
+            if got != [p for p, _ in params]:
+                raise Untranslatable(f"{name}: parameters are {got}")
+            t = TrVal(w, fn, node)
+            t.loop = None
+            env = {p: ("val", ty) for p, ty in ctx + params}
+            saved = w.lean_ret
+            w.lean_ret = lambda f_: ret
+            try:
+                body = t.block(node.body, env, lambda e2, i2: t.err(node, "falls off the end"), 1)
+            finally:
+                w.lean_ret = saved
+            out.append(f"/-- {doc} -/\ndef {fn.lean} {ps} : {ret} :=\n{body}")
+        except Untranslatable as e:
+            out.append(f"/-- UNTRANSLATABLE {doc} — {str(e).replace('-/', '- /')} -/\ndef {fn.lean} {ps} : {ret} := default\n")
+
+
 def translate_generator():
     from nasim.scenarios import generator as gen_mod
     w = World()
@@ -350,4 +407,5 @@ def translate_generator():
                    f"def {fn.lean} (subnets : List Nat) : List (List Int) := default\n")
     translate_vulnerability(w, meth, out)
     translate_maps(w, meth, out)
+    translate_values(w, meth, out)
     return "\n".join(out)
